@@ -653,7 +653,7 @@ func shortCircuitDispatch(fn *ssa.Function, d *dispatch, kt types.Type) bool {
 		if !ok {
 			continue
 		}
-		if tag, _, ok := enumTest(ifi.Cond, kt); !ok || tag != d.Tag {
+		if tag, _, ok := enumTest(ifi.Cond, kt); !ok || tag != d.Tag || !d.IsTest(b) {
 			continue
 		}
 		for _, su := range b.Succs {
@@ -670,7 +670,7 @@ func shortCircuitDispatch(fn *ssa.Function, d *dispatch, kt types.Type) bool {
 	for _, b := range fn.Blocks {
 		for _, in := range b.Instrs {
 			if bo, ok := in.(*ssa.BinOp); ok {
-				if tag, _, ok := enumTest(bo, kt); ok && tag == d.Tag {
+				if tag, _, ok := enumTest(bo, kt); ok && tag == d.Tag && (d.IsTest(b) || !isIfCond(bo)) {
 					for _, ref := range *bo.Referrers() {
 						if _, isIf := ref.(*ssa.If); !isIf {
 							return true
@@ -691,7 +691,7 @@ func simulateKind(d *dispatch, k int64, kt types.Type) []*ssa.BasicBlock {
 	for steps := 0; steps < 256; steps++ {
 		path = append(path, b)
 		if ifi, ok := lastInstr(b).(*ssa.If); ok {
-			if tag, c, isTest := enumTest(ifi.Cond, kt); isTest && tag == d.Tag {
+			if tag, c, isTest := enumTest(ifi.Cond, kt); isTest && tag == d.Tag && d.IsTest(b) {
 				eq := c == k
 				if ifi.Cond.(*ssa.BinOp).Op == token.NEQ {
 					eq = !eq
@@ -895,4 +895,14 @@ func typeAgreementRule(c *Ctx, r *Report) {
 			r.Check(ok, "R07h", c.FnName(fn), g.Name()+" key type", c.Pos(ci.Pos()), why, "a map is indexed with a key that was not converted to the map's key type ("+clip(ks, 160)+"): for a map keyed by a named string type MapIndex / SetMapIndex panic")
 		}
 	}
+}
+
+// isIfCond: the comparison is only branched on.
+func isIfCond(bo *ssa.BinOp) bool {
+	for _, ref := range *bo.Referrers() {
+		if _, ok := ref.(*ssa.If); !ok {
+			return false
+		}
+	}
+	return len(*bo.Referrers()) > 0
 }
